@@ -315,20 +315,36 @@ def m_atan2(eng, args, kwargs, st, node):
 external('numpy.arctan2')(m_atan2)
 
 
+def _trig_pair(eng, st, x):
+    """A10: (cos x, sin x) as a pair of reals with c*c + s*s == 1 (cached per argument term)"""
+    eng.externals_used.add('math.sin/cos (A10: sin^2+cos^2=1, range [-1,1])')
+    key = 'trig:' + z3.simplify(x).sexpr()
+    cache = st.env.get('__sqrt_cache')
+    if not isinstance(cache, dict):
+        cache = {}
+    if key in cache:
+        return cache[key]
+    xs = z3.simplify(x)
+    if z3.is_rational_value(xs) and xs.numerator_as_long() == 0:
+        pair = (z3.RealVal(1), z3.RealVal(0))
+    else:
+        c, s_ = fresh_const('cos', z3.RealSort()), fresh_const('sin', z3.RealSort())
+        st.assume(z3.And(c * c + s_ * s_ == 1, c <= 1, c >= -1, s_ <= 1, s_ >= -1))
+        pair = (c, s_)
+    cache = dict(cache)
+    cache[key] = pair
+    st.env['__sqrt_cache'] = cache
+    return pair
+
+
 @external('math.cos')
 def m_cos(eng, args, kwargs, st, node):
-    x = real_of(eng, args[0], st, node)
-    eng.externals_used.add('math.sin/cos (A10: sin^2+cos^2=1, range [-1,1])')
-    st.assume(z3.And(sin_f(x) * sin_f(x) + cos_f(x) * cos_f(x) == 1, cos_f(x) <= 1, cos_f(x) >= -1))
-    yield SV(REAL, cos_f(x)), st
+    yield SV(REAL, _trig_pair(eng, st, real_of(eng, args[0], st, node))[0]), st
 
 
 @external('math.sin')
 def m_sin(eng, args, kwargs, st, node):
-    x = real_of(eng, args[0], st, node)
-    eng.externals_used.add('math.sin/cos (A10: sin^2+cos^2=1, range [-1,1])')
-    st.assume(z3.And(sin_f(x) * sin_f(x) + cos_f(x) * cos_f(x) == 1, sin_f(x) <= 1, sin_f(x) >= -1))
-    yield SV(REAL, sin_f(x)), st
+    yield SV(REAL, _trig_pair(eng, st, real_of(eng, args[0], st, node))[1]), st
 
 
 external('numpy.cos')(m_cos)
